@@ -4,7 +4,7 @@ from props.C01 import TRUSTED
 
 
 def run(ck):
-    ck.coq_build("Core")
+    ck.coq_build("Core", props=["Props_C10", "Props_C01"])
     ck.extract("Core")
     feats = {"config": 1.0, "calls": 0.3}
     s = rwsearch.Search(ck, ops=rwsearch.CONFIG_OPS, features=feats, chain=ck.n(2, 3))
